@@ -347,10 +347,8 @@ def make_phase(rng, dec, fk, shape=(), imaginary=False):
     f = np.array([rand_frac(rng, fk) for _ in range(n)]).reshape(shape)
     with probes.quiet():
         try:
-            if imaginary:
-                p = Phase(c * 1j, f * 1j)
-            else:
-                p = Phase(c, f)
+            from .C15 import as_view
+            p = as_view(rng, c, f, Phase, imaginary)
         except Exception as exc:
             raise ValidInputRefused("phase_new", f"Phase({'imaginary' if imaginary else 'real'} count {c!r:.80}, fraction {f!r:.80}) raised "
                                                  f"{type(exc).__name__}: {exc}", {"imaginary": imaginary})
